@@ -332,6 +332,60 @@ fn run(sh: &mut Shard) {
             }
         }
         run_case(sh, "float", &[es(neg(float_expr(*a)))]);
+        // the very same object on both sides
+        for op in &ops {
+            run_case(sh, "float-self", &[let_("x", float_expr(*a)), es(infix(id("x"), op.clone(), id("x")))]);
+            run_case(
+                sh,
+                "float-self",
+                &[es(call(func("", &["p", "q"], vec![es(infix(id("p"), op.clone(), id("q")))]), vec![float_expr(*a), float_expr(*a)]))],
+            );
+            run_case(
+                sh,
+                "float-self",
+                &[let_("x", float_expr(*a)), es(call(func("", &["p", "q"], vec![es(infix(id("p"), op.clone(), id("q")))]), vec![id("x"), id("x")]))],
+            );
+        }
+    }
+    for a in &ss {
+        for op in CMP_OPS.iter() {
+            run_case(sh, "string-self", &[let_("x", string(a)), es(infix(id("x"), op.clone(), id("x")))]);
+        }
+    }
+    // integer literals around and beyond the range ends: in range they denote themselves, outside they are refused
+    for k in 57..=64u32 {
+        for off in [-2i128, -1, 0, 1, 2] {
+            let v = (1i128 << k) + off;
+            if v < 0 || v > u64::MAX as i128 {
+                continue;
+            }
+            let text = v.to_string();
+            for prog in [text.clone(), format!("-{text}"), format!("stel x = {text}; x + 0"), format!("functie(p) {{ p - {text} }}(0)"), format!("{text} == {text}")] {
+                if !sh.mine() {
+                    continue;
+                }
+                let t = prog.clone();
+                sh.begin(&|| t.clone());
+                sh.count("family:int-literal-range");
+                match crate::common::parse_guarded(&prog) {
+                    crate::common::Parsed::Ok(_) => {
+                        if let Some(r) = differential_text(sh, "operator", &prog, None, opts()) {
+                            if !matches!(r.model.end, crate::refint::End::Unspec(_)) {
+                                sh.nontrivial(&prog);
+                            }
+                        }
+                    }
+                    crate::common::Parsed::Err(_) => {
+                        // refused by the parser: fine iff the value is out of range
+                        if v <= INT_MAX as i128 {
+                            sh.violation("operator", json!({"program": prog}), format!("the in-range literal {text} was refused"));
+                        }
+                        sh.nontrivial(&prog);
+                    }
+                    crate::common::Parsed::Panic(p) => sh.violation("operator", json!({"program": prog}), format!("panic: {p}")),
+                }
+            }
+        }
     }
     // F6 order axioms
     for (kind, vals) in axiom_sets(tier, seed) {
